@@ -112,6 +112,59 @@ fn assoc_dist(d: &Det, t: &Stored) -> f64 {
     dist_in_2r(&cand_box(d), t.predicted.last().unwrap())
 }
 
+/// The unit in which the limits are expressed: centre distance over the sum of the two circumscribed radii, for
+/// pairs of boxes of DIFFERENT shape (a shortcut that is exact for equal aspect ratios shows only there), and the
+/// admission decision for limits 2% below / above the true value.
+pub fn run_distance_unit(rep: &Report, tier: Tier) {
+    use similari::utils::bbox::Universal2DBox;
+    let mut boxes: Vec<Universal2DBox> = vec![];
+    let aspects: Vec<f32> = tier.pick(vec![0.2, 0.5, 1.5, 4.0], vec![0.1, 0.2, 0.5, 1.0, 1.5, 2.5, 4.0, 8.0]);
+    let heights: Vec<f32> = tier.pick(vec![5.0, 12.0, 40.0], vec![1.0, 5.0, 12.0, 40.0, 300.0]);
+    for &a in &aspects {
+        for &h in &heights {
+            for ang in [None, Some(0.4f32), Some(2.0), Some(-1.0)] {
+                if ang.is_some() && tier == Tier::Quick && (h == 5.0) {
+                    continue;
+                }
+                boxes.push(Universal2DBox::new(0.0, 0.0, ang, a, h));
+            }
+        }
+    }
+    let offsets: [(f32, f32); 6] = [(0.0, 0.0), (3.0, 0.0), (0.0, -7.5), (11.0, 4.0), (-40.0, 55.0), (300.0, 10.0)];
+    let n = AtomicU64::new(0);
+    par_for(boxes.len(), 1, |i| {
+        for r0 in &boxes {
+            for &(ox, oy) in &offsets {
+                let l = boxes[i].clone();
+                let mut r = r0.clone();
+                r.xc = ox;
+                r.yc = oy;
+                n.fetch_add(1, Ordering::Relaxed);
+                let got = Universal2DBox::dist_in_2r(&l, &r) as f64;
+                let radius = |b: &Universal2DBox| 0.5 * ((b.aspect as f64 * b.height as f64).powi(2) + (b.height as f64).powi(2)).sqrt();
+                let rr = radius(&l) + radius(&r);
+                let exp = ((ox as f64).powi(2) + (oy as f64).powi(2)).sqrt() / (rr * rr + 1e-5).sqrt();
+                let case = || json!({"part":"distance unit","left":[l.xc,l.yc,l.angle,l.aspect,l.height],"right":[r.xc,r.yc,r.angle,r.aspect,r.height]});
+                if (got - exp).abs() > 1e-4 * exp.max(1e-3) {
+                    rep.violation(Violation { key: "constraints/distance-unit".into(), what: format!("normalised distance {got}, centre distance over the sum of the circumscribed radii is {exp}"), replay: case() });
+                    continue;
+                }
+                if exp > 1e-3 {
+                    for (lim, admit) in [(exp * 1.02, true), (exp * 0.98, false)] {
+                        let c = SpatioTemporalConstraints::default().constraints(&[(1, lim as f32)]);
+                        if c.validate(1, got as f32) != admit {
+                            rep.violation(Violation { key: "constraints/admission-at-true-distance".into(), what: format!("true distance {exp}, limit {lim}: admitted = {}", !admit), replay: case() });
+                        }
+                    }
+                }
+            }
+        }
+    });
+    let c = n.load(Ordering::Relaxed);
+    rep.add(c, c, c, c);
+    rep.extra("distance_unit_pairs", json!(c));
+}
+
 pub fn run_trackers(rep: &Report, tier: Tier) {
     let tables: Vec<(&str, Option<Vec<(usize, f32)>>, bool)> = vec![
         ("slack", Some(vec![(5, 100.0)]), true),
